@@ -32,7 +32,7 @@ CHECKS = {
          "DESIGN.md section 4 C09"),
 
  "C15": ("runtime monitoring: boundary trace of every command over trigger, polyglot (swapped-language / unsupported-type) and twin (extension case, tsx/jsx, shebang) projects and under random foreign configuration sections; rule-family, silence and relational oracles",
-         "Held on the executions observed: 20 commands x rule-id family, random valid settings of the other linters' sections (hyphen/underscore; repeated under --parallel on a padded project, including the other cross-file rule switched off), language-specific linters on other-language and unrecognised files, extension-case/tsx/jsx/shebang twins; evidence counts each relation. Round-6 additions: the per-rule switch of a sibling rule inside a shared section (performance) as foreign configuration. Round-7 additions: extension-case twins under per-language sections (nesting / srp / dry) that differ from the global thresholds, every file twice.",
+         "Held on the executions observed: 20 commands x rule-id family, random valid settings of the other linters' sections (hyphen/underscore; repeated under --parallel on a padded project, including the other cross-file rule switched off), language-specific linters on other-language and unrecognised files, extension-case/tsx/jsx/shebang twins; evidence counts each relation. Round-6 additions: the per-rule switch of a sibling rule inside a shared section (performance) as foreign configuration. Round-7 additions: extension-case twins under per-language sections (nesting / srp / dry) that differ from the global thresholds, every file twice; a test-named Python file (calc_test.py) in every twin.",
          "Trusted: the family table from the docs; which linters are language-specific (per-linter docs); file-placement and file-header are exempt from the unrecognised-type clause (they document non-source types).",
          "DESIGN.md section 4 C15"),
 
